@@ -69,6 +69,11 @@ inline std::string reader_all(const std::string& in, size_t max_blocks = 100000)
             try { bool end = false; for (;;) { auto g = b.read_generic_mm(end); if (end) break; nrec++; use(g.string()); } } catch (std::exception& e) { r += "mX;"; }
             // copies of what the reader returned (value semantics on untrusted content)
             CdnsBlockRead c(b); use(c.string());
+            // ... and a block that was moved out of an object which is gone afterwards (containers of blocks do this): all three record kinds are read from it
+            { std::unique_ptr<CdnsBlockRead> src(new CdnsBlockRead(b)); CdnsBlockRead moved(std::move(*src)); src.reset();
+              try { bool end = false; for (int i = 0; i < 100000 && !end; i++) { auto g = moved.read_generic_aec(end); if (!end) use(g.string()); } } catch (std::exception&) {}
+              try { bool end = false; for (int i = 0; i < 100000 && !end; i++) { auto g = moved.read_generic_qr(end); if (!end) use(g.string()); } } catch (std::exception&) {}
+              try { bool end = false; for (int i = 0; i < 100000 && !end; i++) { auto g = moved.read_generic_mm(end); if (!end) use(g.string()); } } catch (std::exception&) {} }
         }
     } catch (CdnsDecoderEnd& e) { r += "end"; } catch (std::exception& e) { r += "exc:" + cls(e.what()); }
     return r + ";b=" + std::to_string(std::min<size_t>(nb, 9)) + ";r=" + std::to_string(std::min<size_t>(nrec, 9));
